@@ -1,6 +1,6 @@
 """C02 - -lh1- adaptive-Huffman decoder stays in lock-step with the LZHUF model."""
 import vcommon as V
-import codeccommon as CC
+import codeccommon as CC   # (puts harness/py/enc on the path)
 
 LEVEL = "model_checking"
 ASSUMPTIONS = ["Codec_Lh1.tla carries the LZHUF reference (StartHuff / update / reconst on freq, prnt, son); lhasa's decoder uses a different "
@@ -10,8 +10,28 @@ ASSUMPTIONS = ["Codec_Lh1.tla carries the LZHUF reference (StartHuff / update / 
                "TLC/SANY/CommunityModules trusted"]
 
 
+def ramp_cases(tier, ev):
+    """streams that drive the number of distinct node frequencies - lhasa's frequency groups - beyond 314
+    (there are 627 nodes, hence up to 627 groups; uniform data stays near 260): code c is used w(c) times
+    with all w different; long copies get the small weights to keep the output short"""
+    import enc_lh1 as E
+    order = sorted([(256 + i, 57 - i) for i in range(58)] + [(b, 58 + b) for b in range(256)], key=lambda x: x[1])
+    seq = []
+    for c, w in order:
+        seq += [c] * w
+    seq = seq[:21000 if tier == "quick" else len(seq)]
+    h = E.AdaptiveHuffman()
+    mx = 0
+    for c in seq:
+        h.update(c)
+        mx = max(mx, len(set(h.freq[:E.T])))
+    cmds = [("lit", c) if c < 256 else ("copy", (c * 37) % 4096, c - 253) for c in seq]
+    ev.set("max_simultaneous_frequency_groups", mx)
+    return [("ramp of %d commands, %d distinct frequencies" % (len(seq), mx), "-lh1-", E.encode(cmds), E.expand(cmds))]
+
+
 def run(tier, seed, ev):
-    viols = CC.run("C02", [("lh1", "-lh1-")], tier, seed, ev, 120000 if tier == "quick" else 3000000)
+    viols = CC.run("C02", [("lh1", "-lh1-")], tier, seed, ev, 120000 if tier == "quick" else 3000000, extra=ramp_cases(tier, ev))
     viols += CC.ground(tier, ["-lh1-"], ev)
     ev.set("rule", "one execution per (stream, read schedule); distinct = structural case label (symbol distributions, copy lengths 3..60, "
                    "distances 0/63/64/4095, streams long enough for several tree rebuilds)")
